@@ -50,10 +50,21 @@ var effectFreeFuncs = map[string]bool{
 	"k8s.io/apimachinery/pkg/labels.Everything": true,
 }
 
+// purePkgs: standard-library packages whose functions only compute a result from their
+// arguments (no contract needed to stay sound: the result is left unconstrained). Keeps a
+// harmless edit that starts using, say, strings.ToLower from turning into an alarm.
+var purePkgs = map[string]bool{
+	"strings": true, "strconv": true, "math": true, "math/bits": true, "unicode": true, "unicode/utf8": true,
+	"path": true, "path/filepath": true,
+}
+
 // effectFree: calls that neither read nor write modelled state.
 func (e *Engine) effectFree(fn *ssa.Function, call *ssa.CallCommon) bool {
 	if fn != nil {
 		if effectFreeFuncs[fn.String()] {
+			return true
+		}
+		if fn.Pkg != nil && purePkgs[fn.Pkg.Pkg.Path()] && fn.Signature.Recv() == nil && !strings.HasPrefix(fn.Name(), "Append") {
 			return true
 		}
 		p := ""
